@@ -301,6 +301,10 @@ func c15Crash(cs c15Case) (ds []disc, insideOverwrite bool) {
 			if okMeta {
 				return
 			}
+			if g.Header.Get("ETag") != etagOf(a.body) || h.Header.Get("ETag") != etagOf(a.body) || g.Header.Get("Content-Length") != fmt.Sprint(len(a.body)) {
+				fail(what+"-etag-does-not-match-bytes", "%s/%s serves %d bytes (md5 %s) with GET ETag %s / HEAD ETag %s / Content-Length %s", p[0], p[1], len(a.body), md5hex(a.body), g.Header.Get("ETag"), h.Header.Get("ETag"), g.Header.Get("Content-Length"))
+				return
+			}
 			fail(what+"-mixed-versions", "%s/%s has the bytes of one version (%d bytes) but ETag %s / Content-Length %s / metadata of another (want ETag %s, meta %v; got headers %v)", p[0], p[1], len(a.body), g.Header.Get("ETag"), g.Header.Get("Content-Length"), etagOf(a.body), a.meta, metaHeaders(g))
 			return
 		}
@@ -311,6 +315,12 @@ func c15Crash(cs c15Case) (ds []disc, insideOverwrite bool) {
 			} else {
 				want = append(want, "absent")
 			}
+		}
+		// Whatever a crash leaves behind, the entity headers must describe the bytes that are served:
+		// this is demanded even where the open finding about non-atomic writes applies.
+		if g.Status == 200 && (g.Header.Get("ETag") != etagOf(g.Body) || h.Header.Get("ETag") != etagOf(g.Body) || g.Header.Get("Content-Length") != fmt.Sprint(len(g.Body)) || h.Header.Get("Content-Length") != fmt.Sprint(len(g.Body))) {
+			fail(what+"-etag-does-not-match-bytes", "%s/%s serves %d bytes (md5 %s) with GET ETag %s / HEAD ETag %s / Content-Length %s / HEAD Content-Length %s", p[0], p[1], len(g.Body), md5hex(g.Body), g.Header.Get("ETag"), h.Header.Get("ETag"), g.Header.Get("Content-Length"), h.Header.Get("Content-Length"))
+			return
 		}
 		fail(what+"-neither-old-nor-new", "%s/%s reads GET %d (%d bytes, md5 %s) / HEAD %d, which is none of: %v", p[0], p[1], g.Status, len(g.Body), md5hex(g.Body), h.Status, want)
 	}
@@ -371,7 +381,7 @@ func c15Classify(k backends.Kind, ds []disc) []disc {
 			continue
 		}
 		switch {
-		case strings.HasPrefix(ds[i].Kind, "in-flight-write-"):
+		case ds[i].Kind == "in-flight-write-mixed-versions" || ds[i].Kind == "in-flight-write-neither-old-nor-new":
 			ds[i].KF = "KF-C15-fs-crash-atomicity"
 		case ds[i].Kind == "phantom-key-after-crash" && strings.Contains(ds[i].Detail, ".modtime-resolution"):
 			ds[i].KF = "KF-C15-fs-crash-atomicity"
@@ -785,6 +795,9 @@ func c15Run(t *testing.T, c *evid.Collector) {
 		{{K: "put", B: "bk0", Key: "a", Body: big, Meta: meta("old")}, {K: "put", B: "bk0", Key: "a", Body: b("short"), Meta: meta("new")}},
 		{{K: "put", B: "bk0", Key: "a", Body: b("short"), Meta: meta("old")}, {K: "put", B: "bk0", Key: "d/x", Body: b("dx")}, {K: "put", B: "bk0", Key: "a", Body: big, Meta: meta("new")}},
 		{{K: "put", B: "bk0", Key: "d/x", Body: b("dx")}, {K: "put", B: "bk0", Key: "d/e/z", Body: b("fresh"), Meta: meta("new")}},
+		// same-size overwrites: only the modification time tells the stored metadata is stale
+		{{K: "put", B: "bk0", Key: "a", Body: b("first version!"), Meta: meta("old")}, {K: "tick"}, {K: "put", B: "bk0", Key: "a", Body: b("other version?"), Meta: meta("new")}},
+		{{K: "put", B: "bk0", Key: "d/x", Body: prog.Pattern(40000, 1), Meta: meta("old")}, {K: "tick"}, {K: "put", B: "bk0", Key: "d/x", Body: prog.Pattern(40000, 2), Meta: meta("new")}},
 		{{K: "put", B: "bk0", Key: "a", Body: b("aaa")}, {K: "put", B: "bk0", Key: "d/x", Body: b("dx"), Meta: meta("old")}, {K: "del", B: "bk0", Key: "d/x"}},
 		{{K: "put", B: "bk0", Key: "a", Body: b("aaa"), Meta: meta("old")}, {K: "put", B: "bk0", Key: "b", Body: b("bbb")}, {K: "copy", B: "bk0", Key: "b", SB: "bk0", SKey: "a"}},
 		{{K: "put", B: "bk0", Key: "a", Body: b("aaa")}, {K: "put", B: "bk0", Key: "d/x", Body: b("dx")}, {K: "put", B: "bk0", Key: "d/y", Body: b("dy")}, {K: "mdel", B: "bk0", Keys: []string{"a", "d/x", "nope"}}},
